@@ -389,7 +389,7 @@ func c20Isolation(c *mon.Ctx, r *mon.Rand) {
 		prec = mon.NewPlainRec(true)
 		opts.Reporter = prec
 	}
-	root, _ := tally.VerifNewRootScope(opts, 0, uint(r.Range(1, 4)))
+	root, _ := vNewRoot(opts, 0, uint(r.Range(0, 4)))
 	order := r.Perm(len(fam))
 	hes := make([]histExpect, len(fam))
 	scopes := make([]tally.Scope, len(fam))
